@@ -111,25 +111,18 @@ def check(fx, rep, tier):
         for body in crate.bodies:
             if body.in_test or body.kind != 'AssocFn' or not (body.impl_self and 'select_all::SelectAll' in body.impl_self and body.name == 'poll'):
                 continue
-            polls = [(b, t) for b, t in body.iter_terms('call') if t['callee'].get('name') == 'poll']
-            bad = []
-            for b, t in polls:
-                # Ready edge: switch on discriminant of the poll result
-                for sw in body.reach_from_succ(b) | {b}:
-                    if body.is_cleanup(sw) or body.term(sw)['k'] != 'switch':
-                        continue
-                    info = body.switch_info(sw)
-                    if info and info.get('kind') == 'discr' and info['place']['l'] == t['dest']['l']:
-                        ready = info['arms'].get(0)
-                        if ready is not None:
-                            r = body.reachable(ready)
-                            for b2, t2 in polls:
-                                if b2 in r:
-                                    bad.append((b, b2))
-            rep.check(bool(polls) and not bad, 'R07.4', '%s|first-ready-returns|%s' % (body.path, cfg), body.where(),
-                      'no poll is reachable from a Ready result (%d poll site(s))' % len(polls),
-                      'after a future returned Ready the helper polls again before returning: a completed receive can be dropped',
-                      {'pairs': [[C.where(body, a), C.where(body, b)] for a, b in bad]})
+            # same rule code as R18.2 "a ready output is returned at once" (loop form and iterator form of the sweep)
+            import c18, engine
+            sub = engine.Report('C18', 'quick')
+            c18.check_select(fx, sub, crate, cfg)
+            hits = [i for i in sub.insts if i.rule == 'R18.2' and '|ready-returned-at-once|' in i.key]
+            if not hits:
+                anchors = [i for i in sub.insts if i.rule == 'R18.2' and not i.ok]
+                rep.bad('R07.4', '%s|first-ready-returns|%s' % (body.path, cfg), body.where(),
+                        'the sweep of the select helper was not recognised: %s' % (anchors[0].msg if anchors else 'no poll site'))
+            for i in hits:
+                (rep.ok if i.ok else rep.bad)('R07.4', '%s|first-ready-returns|%s' % (body.path, cfg), i.where,
+                                              i.msg if i.ok else 'after a future returned Ready the helper polls again before returning: a completed receive can be dropped')
     rep.floor('R07.1', 7 * len(cfgs), 'receive-path coroutines in zlink-core')
     rep.floor('R07.4', len(cfgs), 'SelectAll::poll bodies')
     # transports
